@@ -161,7 +161,7 @@ def check_op_doc(case) -> list[Fail]:
 
 
 def order_strategy(tier):
-    return st.fixed_dictionaries({"root": st.sampled_from(["dfg", "custom"]), "mut": store.order_port_mutations(14 if tier == "quick" else 24)})
+    return st.fixed_dictionaries({"root": st.sampled_from(["dfg", "custom"]), "mut": st.one_of(store.order_port_mutations(14 if tier == "quick" else 24), store.stale_order_mutations())})
 
 
 REQUIRES = {"children-not-in-index-order": _has_unsorted_children}
